@@ -106,13 +106,16 @@ def history_to_text(h, fuse=None):
     return '\n'.join(lines) + '\n'
 
 
-def run_replay(history, profile='dev', fuse=None, timeout=20):
+def run_replay(history, profile='dev', fuse=None, timeout=20, dump=False):
     """run a concrete history natively; returns dict(findings=[(op#, tag, detail)], crashed=signal|None, last_begin, timed_out)"""
     b = build_replay(profile)
     path = os.path.join(scratch(), f'hist.{os.getpid()}.{time.time_ns()}.txt')
     open(path, 'w').write(history_to_text(history, fuse))
+    env = dict(os.environ)
+    if dump:
+        env['VERIF_DUMP'] = '1'
     try:
-        p = subprocess.run([b, path], stdout=subprocess.PIPE, stderr=subprocess.PIPE, text=True, timeout=timeout)
+        p = subprocess.run([b, path], stdout=subprocess.PIPE, stderr=subprocess.PIPE, text=True, timeout=timeout, env=env)
         out, err, rc, to = p.stdout, p.stderr, p.returncode, False
     except subprocess.TimeoutExpired as ex:
         out = (ex.stdout or b'').decode() if isinstance(ex.stdout, bytes) else (ex.stdout or '')
@@ -121,6 +124,8 @@ def run_replay(history, profile='dev', fuse=None, timeout=20):
     res = {'findings': [], 'crashed': None, 'last_begin': None, 'timed_out': to, 'profile': profile, 'stderr_tail': err[-600:]}
     for line in out.splitlines():
         parts = line.split(' ', 3)
+        if parts[0] == 'SNAP':
+            res['snap'] = line
         if parts[0] == 'BEGIN':
             res['last_begin'] = (int(parts[1]), parts[2])
         elif parts[0] == 'MISMATCH':
